@@ -239,14 +239,26 @@ func latestPath(id string) string {
 	return filepath.Join(replayDir(), fmt.Sprintf("%s.latest.%d.json", id, shard()))
 }
 
+// firstFailPath: the first violation a shard observes is kept here as well. A violation that
+// depends on process-wide state left behind by earlier cases (a cache inside the library, say)
+// does not recur when rapid immediately re-runs the case ("flaky test, can not reproduce"), and
+// the re-run would otherwise leave no trace of it.
+func firstFailPath(id string) string {
+	return filepath.Join(replayDir(), fmt.Sprintf("%s.firstfail.%d.json", id, shard()))
+}
+
 func writeReplay(id string, c interface{}, msg string) {
+	writeReplayTo(latestPath(id), id, c, msg)
+}
+
+func writeReplayTo(path, id string, c interface{}, msg string) {
 	_ = os.MkdirAll(replayDir(), 0o755)
 	cb, err := json.MarshalIndent(c, "", " ")
 	if err != nil {
 		cb = []byte(fmt.Sprintf("%q", fmt.Sprintf("unserialisable case: %v", err)))
 	}
 	b, _ := json.MarshalIndent(replayFile{Property: id, Message: msg, Case: cb}, "", " ")
-	_ = os.WriteFile(latestPath(id), b, 0o644)
+	_ = os.WriteFile(path, b, 0o644)
 }
 
 func loadCase[C any](path string) (C, error) {
@@ -313,6 +325,9 @@ func (p Prop[C]) runCase(c C, r *Rec) *Violation {
 }
 
 func (p Prop[C]) fail(c C, r *Rec, v *Violation) {
+	if !r.frozen {
+		writeReplayTo(firstFailPath(p.ID), p.ID, c, v.Msg)
+	}
 	r.frozen = true
 	writeReplay(p.ID, c, v.Msg)
 }
@@ -322,6 +337,7 @@ func Run[C any](t *testing.T, p Prop[C]) {
 	r := newRec(p.ID)
 	defer func() { r.write(p.Rule) }()
 	_ = os.Remove(latestPath(p.ID))
+	_ = os.Remove(firstFailPath(p.ID))
 
 	if shard() == 0 {
 		dir := filepath.Join(envOr("VERIF_CORPUS", filepath.Join(verifRoot(), "corpus")), p.ID)
